@@ -96,7 +96,37 @@ def work(case):
     return out, nontrivial, fail
 
 
+def engine_half(ctx, res):
+    """the action half on a real engine: a completion learned from a peer yields the complex event but (default
+    local_only) no action; repeating the message yields nothing more"""
+    import sim_engine as SE
+    rng = ctx.rng
+    for k in range(60 if ctx.quick else 600):
+        shape = rng.choice([s for s in G.shapes(3) if len(s) >= 2])
+        p = G.pattern(1, G.assign(shape, 0, "distinct"))
+        cfg = dict(phen=[(1, [p])], maxcache=50, idbase=1000)
+        local_only = rng.random() < 0.8
+        ed = dict(cfg=cfg, tr=0, td=0, tp=0, tf=0, early=True, local_only=local_only, datagen=[], act=[(1, (1, True, 5))])
+        nb = len(p["blocks"])
+        ev = (900, 50, 0, 1, 0, 0)
+        rec = dict(id=2000 + k, ph=1, pat=1, idx=nb, hist=[(b["group"], [ev]) for b in p["blocks"]])
+        note = dict(comp=[rec], halt=[], upd=[])
+        stale = dict(comp=[], halt=[], upd=[dict(rec, idx=1, hist=[(p["blocks"][0]["group"], [ev])])])
+        ops = [("remote", note), ("update",), ("update",), ("remote", note), ("remote", stale), ("update",), ("update",), ("update",)]
+        out, engine, handler, log = SE.run_ops(ed, ops)
+        res.note_case(("engine", k), True)
+        ncx = len(log["complex"])
+        nex = len(log["execs"])
+        want_ex = 0 if local_only else 1
+        if ncx != 1 or nex != want_ex or len(engine.decider.all_runs()) != 0:
+            res.failures.append(dict(signature="remote-completion-engine", case=dict(ed=ed, ops=ops),
+                                     what="remote completion delivered twice + stale update: %d complex events (want 1), %d action "
+                                          "executions (want %d), %d active runs (want 0)" % (ncx, nex, want_ex, len(engine.decider.all_runs())),
+                                     detail=None))
+
+
 def run(ctx, res):
+    engine_half(ctx, res)
     cases = gen_cases(ctx)
     results = pmap(work, cases)
     coq_cases = []
